@@ -144,7 +144,16 @@ impl TvfsFile {
         // Build table data first to compute sizes
         let path_data = self.path_table.data.clone();
         let vfs_data = self.vfs_table.data.clone();
-        let cft_data = self.container_table.build(&self.header);
+        // Like the path and VFS tables the CFT is addressed by byte offset and
+        // is written back as the raw bytes that were parsed: a real table is
+        // not a whole number of fixed-size entries, and dropping its tail would
+        // change the table size every offset width in the file is derived
+        // from. A table assembled from entries only is serialised from them.
+        let cft_data = if self.container_table.data.is_empty() {
+            self.container_table.build(&self.header)
+        } else {
+            self.container_table.data.clone()
+        };
         let est_data = self.est_table.as_ref().map(|est| {
             let mut buf = Vec::new();
             for spec in &est.specs {
@@ -319,6 +328,30 @@ mod tests {
 
         let result = TvfsFile::parse(&buffer);
         assert!(result.is_err());
+    }
+
+    #[test]
+    fn test_build_keeps_container_table_bytes() {
+        // A CFT whose size is not a multiple of the entry size (as in real
+        // files): the tail must survive parse -> build, otherwise the table
+        // shrinks and, across a width threshold, every CFT offset is misread
+        let mut builder = TvfsBuilder::new();
+        builder.add_file("a".to_string(), [1; 9], 10, 20, Some([2; 16]));
+        let data = builder.build().expect("Build should succeed");
+        let parsed = TvfsFile::parse(&data).expect("Parse should succeed");
+
+        let mut with_tail = parsed.clone();
+        with_tail
+            .container_table
+            .data
+            .extend_from_slice(&[0xAB, 0xCD]);
+        let bytes = with_tail.build().expect("Build should succeed");
+        let reparsed = TvfsFile::parse(&bytes).expect("Parse should succeed");
+        assert_eq!(
+            reparsed.header.cft_table_size,
+            parsed.header.cft_table_size + 2
+        );
+        assert_eq!(reparsed.build().expect("Build should succeed"), bytes);
     }
 
     #[test]
